@@ -4,6 +4,7 @@ C14 — Mapped bytecode is equivalent to the parsed operation list.
 -/
 import Essential.Lemmas.Asm
 import Essential.Lemmas.Codec
+import Essential.Model.Vm
 
 namespace Essential.C14
 open Essential Spec
@@ -170,6 +171,36 @@ theorem from_ops_spec (ops : List Op) :
   have := mapIndices_encode 0 ops []
   simp only [List.append_nil, mapIndices_nil, Except.map] at this
   rw [this]; rfl
+
+/-! ### execution through the mapped form -/
+
+/-- `OpAccess for &BytecodeMapped`: `op_access(i) = self.op(i).map(Ok)` -/
+def mappedAccess (m : Mapped) : Nat → Option Op := fun i =>
+  match m.op i with
+  | .ok o => o
+  | _ => none
+
+theorem mapped_access_eq (bs : List Nat) (hb : AllBytes bs) (ops : List Op) (h : decode bs = .ok ops)
+    (m : Mapped) (hm : Mapped.tryFromBytes bs = .ok m) : mappedAccess m = fun i => ops[i]? := by
+  funext i
+  simp [mappedAccess, mapped_op_eq_get bs hb ops h m hm i]
+
+/-- **executing the mapped form and executing the operation list from the same machine state
+give identical final machine states, gas and errors** (jumps, repeats and compute children
+included: every access goes through the same function of the index) -/
+theorem exec_bytecode_eq_exec_ops (bs : List Nat) (hb : AllBytes bs) (ops : List Op) (h : decode bs = .ok ops)
+    (m : Mapped) (hm : Mapped.tryFromBytes bs = .ok m) (fuel : Nat) (env : Env) (vm : Vm) :
+    exec fuel { env with ops := mappedAccess m } vm = exec fuel { env with ops := fun i => ops[i]? } vm ∧
+    eval fuel { env with ops := mappedAccess m } vm = eval fuel { env with ops := fun i => ops[i]? } vm := by
+  rw [mapped_access_eq bs hb ops h m hm]
+  exact ⟨rfl, rfl⟩
+
+/-- more generally: exec only depends on the program through the access function -/
+theorem exec_access_congr (env₁ env₂ : Env) (h : env₁.ops = env₂.ops)
+    (hrest : { env₁ with ops := env₂.ops } = env₂) (fuel : Nat) (vm : Vm) :
+    exec fuel env₁ vm = exec fuel env₂ vm := by
+  have : env₁ = env₂ := by rw [← hrest]; cases env₁; simp at h ⊢; exact h
+  rw [this]
 
 /-! non-vacuity -/
 example : decode [1,0,0,0,0,0,0,0,42,2,3] = .ok [.stackPush 42, .stackPop, .stackDup] := by
